@@ -36,6 +36,11 @@ def main():
                 print(f"broken obligation: {o['name']} ({o['kind']}): {o['detail']}")
         ctx.driver = leanio.Driver()
         mod.run(ctx)
+        if leanio.BRIDGE_FUNCS.get(prop):
+            # T2 of the function translator: PyRt primitives vs CPython, pinned translations vs /repo's functions
+            from props import pyrt
+            ctx.driver = leanio.Driver()       # a check may have pointed ctx.driver at a private copy it has removed again
+            pyrt.check_functions(ctx, leanio.BRIDGE_FUNCS[prop], ctx.n(60, 1500))
         return ctx.finish(search=getattr(mod, "search", None))
     except Exception:
         traceback.print_exc()
